@@ -504,4 +504,81 @@ theorem mapM_error {α β ε} {f : α → Except ε β} {l : List α} {e : ε}
         · exact ⟨x, hx, e', he'⟩
       rw [this]
 
+/-! ### idempotence facts used by `merge_self` -/
+
+theorem dedup_of_nodup {α} [BEq α] [LawfulBEq α] {l : List α} (h : l.Nodup) : dedup l = l := by
+  induction l with
+  | nil => rfl
+  | cons a l ih =>
+    rw [List.nodup_cons] at h
+    rw [dedup_cons, ih h.2]
+    have : l.contains a = false := by
+      rw [Bool.eq_false_iff]; intro hc; exact h.1 (List.contains_iff_mem.mp hc)
+    rw [this]; rfl
+
+theorem dedup_append_of_subset {α} [BEq α] [LawfulBEq α] {L M : List α} (h : ∀ x ∈ L, x ∈ M) :
+    dedup (L ++ M) = dedup M := by
+  induction L with
+  | nil => rfl
+  | cons a L ih =>
+    rw [List.cons_append, dedup_cons, ih (fun x hx => h x (by simp [hx]))]
+    have : (dedup M).contains a = true := List.contains_iff_mem.mpr (mem_dedup.mpr (h a (by simp)))
+    rw [this]; rfl
+
+theorem Dict.eq_of_mem_of_key_eq {α} {d : Dict α} (h : d.WF) {p q : String × α} (hp : p ∈ d)
+    (hq : q ∈ d) (hk : q.1 = p.1) : q = p := by
+  unfold Dict.WF Dict.keys at h
+  induction d with
+  | nil => cases hp
+  | cons r d ih =>
+    rw [List.map_cons, List.nodup_cons] at h
+    rcases List.mem_cons.mp hp with rfl | hp' <;> rcases List.mem_cons.mp hq with rfl | hq'
+    · rfl
+    · exact (h.1 (List.mem_map.mpr ⟨q, hq', hk⟩)).elim
+    · exact (h.1 (List.mem_map.mpr ⟨p, hp', hk.symm⟩)).elim
+    · exact ih h.2 hp' hq'
+
+theorem Dict.set_self {α} {d : Dict α} (h : d.WF) {p : String × α} (hp : p ∈ d) :
+    d.set p.1 p.2 = d := by
+  unfold Dict.set
+  have hc : d.contains p.1 = true := by
+    rw [Dict.contains_eq]; exact List.contains_iff_mem.mpr (List.mem_map.mpr ⟨p, hp, rfl⟩)
+  rw [if_pos hc]
+  conv => rhs; rw [← List.map_id d]
+  apply List.map_congr_left
+  intro q hq
+  split
+  · rename_i hk
+    have := Dict.eq_of_mem_of_key_eq h hp hq (by simpa using hk)
+    rw [this]; rfl
+  · rfl
+
+theorem Dict.union_of_subset {α} {a : Dict α} (h : a.WF) {b : Dict α} (hb : ∀ p ∈ b, p ∈ a) :
+    a.union b = a := by
+  induction b with
+  | nil => rfl
+  | cons p b ih =>
+    rw [Dict.union_cons, Dict.set_self h (hb p (by simp))]
+    exact ih (fun q hq => hb q (by simp [hq]))
+
+theorem filterMap_eq_self {α} {f : α → Option α} {t : List α} (h : ∀ c ∈ t, f c = some c) :
+    t.filterMap f = t := by
+  induction t with
+  | nil => rfl
+  | cons a t ih =>
+    rw [List.filterMap_cons, h a (by simp), ih (fun c hc => h c (by simp [hc]))]
+
+/-- `{**d, **d} == d` (also as ordered dicts) -/
+theorem Dict.union_self {α} {d : Dict α} (h : d.WF) : d.union d = d :=
+  Dict.union_of_subset h (fun _ hp => hp)
+
+/-! ### Bool ⇄ Prop -/
+
+theorem nodupB_iff {α} [BEq α] [LawfulBEq α] {l : List α} : Spec.nodupB l = true ↔ l.Nodup := by
+  induction l with
+  | nil => simp [Spec.nodupB]
+  | cons a l ih =>
+    simp only [Spec.nodupB, Bool.and_eq_true, Bool.not_eq_true', List.nodup_cons, ih]
+    rw [Bool.eq_false_iff, Ne, List.contains_iff_mem]
+
 end Bermuda
